@@ -15,7 +15,7 @@ func runCase(c Case) string {
 	case "SPLIT":
 		// pieces ;; tokens(whole) ;; tokens(piece 1) ;; …
 		src := unhex(c.Fields[0])
-		parts := parser.SplitStatements(src)
+		parts := splitWithHistory(src)
 		sb := new(strings.Builder)
 		sb.WriteString(strconv.Itoa(len(parts)))
 		for _, p := range parts {
@@ -56,6 +56,51 @@ func runCase(c Case) string {
 }
 
 var moreOps = map[string]func(c Case) string{}
+
+// splitWithHistory calls SplitStatements(src) first on its own and then again after calls on
+// prefixes of src (a growing buffer is how cmd/pql uses it).  A pure implementation answers the
+// same every time; if some answer differs, that one is returned, so that the disagreement with
+// the model and the oracle clauses on the implementation's output report it.
+func splitWithHistory(src string) []string {
+	first := parser.SplitStatements(src)
+	same := func(a, b []string) bool {
+		if len(a) != len(b) {
+			return false
+		}
+		for i := range a {
+			if a[i] != b[i] {
+				return false
+			}
+		}
+		return true
+	}
+	// prefixes ending just after a white-space byte (at most 6, spread over the source), and a few others
+	var cuts []int
+	for i := 1; i < len(src); i++ {
+		switch src[i-1] {
+		case ' ', '\t', '\n', '\r':
+			cuts = append(cuts, i)
+		}
+	}
+	if len(cuts) > 6 {
+		step := len(cuts) / 6
+		var c2 []int
+		for i := 0; i < len(cuts); i += step {
+			c2 = append(c2, cuts[i])
+		}
+		cuts = append(c2, cuts[len(cuts)-1])
+	}
+	if len(src) > 1 {
+		cuts = append(cuts, len(src)/2, len(src)-1)
+	}
+	for _, k := range cuts {
+		parser.SplitStatements(src[:k])
+		if again := parser.SplitStatements(src); !same(first, again) {
+			return again
+		}
+	}
+	return first
+}
 
 // fmtTokens prints kind, span and value of each token; the value of an error token is
 // message text and is not compared.
